@@ -1,21 +1,23 @@
 (** Model of src/cv_section.rs (read), src/packet.rs (read), src/queue_reader.rs
     and src/pc_reader_raw.rs over the paged reader model.  No proofs here. *)
-From E57 Require Import Base.Prelude Model.PagedReader Model.BsRead Model.Record.
-Local Open Scope monad_scope.
+From E57 Require Import Base.Prelude Model.PagedReader Model.BsRead Model.Record Model.Prog.
+Local Open Scope rprog_scope.
 
 (** [read_exact(..).read_err(..)] on the paged reader. *)
-Definition rd (n : N) : M pr (list N) := relabel ERead (pr_read_exact n).
+Definition rd (n : N) : rprog (list N) := r_read_exact n.
+Definition rfail {A} (k : err_kind) : rprog A := RErr k.
+Definition rret {A} (a : A) : rprog A := RRet a.
 Definition byte_at (l : list N) (i : nat) : N := nth i l 0.
 
 (** * Compressed vector section header *)
 Record cv_header := mkCv { cv_section_length : N; cv_data_offset : N; cv_index_offset : N }.
 
-Definition cv_header_read : M pr cv_header :=
+Definition cv_header_read : rprog cv_header :=
   b <- rd 32 ;;
   let h := mkCv (le_num (slice 8 8 b)) (le_num (slice 16 8 b)) (le_num (slice 24 8 b)) in
-  if negb (byte_at b 0 =? 1) then fail EInvalid else
-  if negb (cv_section_length h mod 4 =? 0) then fail EInvalid else
-  ret h.
+  if negb (byte_at b 0 =? 1) then rfail EInvalid else
+  if negb (cv_section_length h mod 4 =? 0) then rfail EInvalid else
+  rret h.
 
 (** * Packet headers *)
 Inductive pkt_header :=
@@ -23,37 +25,37 @@ Inductive pkt_header :=
 | HData (comp_restart : bool) (packet_length : N) (bytestream_count : N)
 | HIgnored (packet_length : N).
 
-Definition index_header_read : M pr pkt_header :=
+Definition index_header_read : rprog pkt_header :=
   b <- rd 15 ;;
-  if negb (byte_at b 0 =? 0) then fail EInvalid else
-  if existsb (fun x => negb (x =? 0)) (skipn 7 b) then fail EInvalid else
+  if negb (byte_at b 0 =? 0) then rfail EInvalid else
+  if existsb (fun x => negb (x =? 0)) (skipn 7 b) then rfail EInvalid else
   let pl := le_num (slice 1 2 b) + 1 in
-  if negb (pl mod 4 =? 0) then fail EInvalid else
-  ret (HIndex pl).
+  if negb (pl mod 4 =? 0) then rfail EInvalid else
+  rret (HIndex pl).
 
-Definition data_header_read : M pr pkt_header :=
+Definition data_header_read : rprog pkt_header :=
   b <- rd 5 ;;
   let flag := negb (N.land (byte_at b 0) 1 =? 0) in
   let pl := le_num (slice 1 2 b) + 1 in
   let count := le_num (slice 3 2 b) in
-  if negb (pl mod 4 =? 0) then fail EInvalid else
-  if count =? 0 then fail EInvalid else
-  ret (HData flag pl count).
+  if negb (pl mod 4 =? 0) then rfail EInvalid else
+  if count =? 0 then rfail EInvalid else
+  rret (HData flag pl count).
 
-Definition ignored_header_read : M pr pkt_header :=
+Definition ignored_header_read : rprog pkt_header :=
   b <- rd 3 ;;
-  if negb (byte_at b 0 =? 0) then fail EInvalid else
+  if negb (byte_at b 0 =? 0) then rfail EInvalid else
   let pl := le_num (slice 1 2 b) + 1 in
-  if negb (pl mod 4 =? 0) then fail EInvalid else
-  ret (HIgnored pl).
+  if negb (pl mod 4 =? 0) then rfail EInvalid else
+  rret (HIgnored pl).
 
-Definition packet_header_read : M pr pkt_header :=
+Definition packet_header_read : rprog pkt_header :=
   b <- rd 1 ;;
   let id := byte_at b 0 in
   if id =? 0 then index_header_read
   else if id =? 1 then data_header_read
   else if id =? 2 then ignored_header_read
-  else fail EInvalid.
+  else rfail EInvalid.
 
 (** * QueueReader *)
 Record qr := mkQr {
@@ -62,11 +64,11 @@ Record qr := mkQr {
   q_queues : list (list rvalue)
 }.
 
-Definition qr_new (file_offset : N) (proto : list dtype) : M pr qr :=
-  relabel ERead (pr_seek_physical file_offset) ;;;
+Definition qr_new (file_offset : N) (proto : list dtype) : rprog qr :=
+  r_seek file_offset ;;;
   h <- cv_header_read ;;
-  relabel ERead (pr_seek_physical (cv_data_offset h)) ;;;
-  ret (mkQr proto (map (fun _ => bsr_new) proto) (map (fun _ => []) proto)).
+  r_seek (cv_data_offset h) ;;;
+  rret (mkQr proto (map (fun _ => bsr_new) proto) (map (fun _ => []) proto)).
 
 (** [available]: 0 for an empty prototype, else the shortest queue. *)
 Definition qr_available (q : qr) : N :=
@@ -89,21 +91,21 @@ Fixpoint pop_fronts (qs : list (list rvalue)) : res (list rvalue * list (list rv
   end.
 
 (** the [for i in 0..buffer_sizes.len()] loop reading the u16 stream lengths *)
-Fixpoint read_sizes (n : nat) : M pr (list N) :=
+Fixpoint read_sizes (n : nat) : rprog (list N) :=
   match n with
-  | O => ret []
-  | S k => b <- rd 2 ;; r <- read_sizes k ;; ret (le_num b :: r)
+  | O => rret []
+  | S k => b <- rd 2 ;; r <- read_sizes k ;; rret (le_num b :: r)
   end.
 
 (** read each stream's bytes and append them to its bit buffer *)
-Fixpoint read_streams (sizes : list N) (streams : list bsr) : M pr (list bsr) :=
+Fixpoint read_streams (sizes : list N) (streams : list bsr) : rprog (list bsr) :=
   match sizes, streams with
   | sz :: sr, st :: tr =>
       data <- rd sz ;;
-      st' <- lift_res (bsr_append st data) ;;
+      st' <- rlift (bsr_append st data) ;;
       r <- read_streams sr tr ;;
-      ret (st' :: r)
-  | _, _ => ret []
+      rret (st' :: r)
+  | _, _ => rret []
   end.
 
 (** [min_queue_size]; [None] stands for usize::MAX (no record of non-zero width). *)
@@ -159,67 +161,68 @@ Definition INDEX_HEADER_SIZE : N := 16.
 Definition IGNORED_HEADER_SIZE : N := 4.
 
 (** [advance]: read the next packet and decode it into the queues. *)
-Definition qr_advance (q : qr) : M pr qr :=
+Definition qr_advance (q : qr) : rprog qr :=
   h <- packet_header_read ;;
   q' <- (match h with
    | HIndex pl =>
-       if pl <? INDEX_HEADER_SIZE then fail EInvalid else
-       rd (pl - INDEX_HEADER_SIZE) ;;; ret q
+       if pl <? INDEX_HEADER_SIZE then rfail EInvalid else
+       rd (pl - INDEX_HEADER_SIZE) ;;; rret q
    | HIgnored pl =>
-       if pl <? IGNORED_HEADER_SIZE then fail EInvalid else
-       rd (pl - IGNORED_HEADER_SIZE) ;;; ret q
+       if pl <? IGNORED_HEADER_SIZE then rfail EInvalid else
+       rd (pl - IGNORED_HEADER_SIZE) ;;; rret q
    | HData _ _ count =>
-       if negb (count =? len (q_streams q)) then fail EInvalid else
+       if negb (count =? len (q_streams q)) then rfail EInvalid else
        sizes <- read_sizes (length (q_proto q)) ;;
        streams <- read_streams sizes (q_streams q) ;;
-       mqs <- lift_res (min_queue_size (q_proto q) streams (q_queues q) None) ;;
+       mqs <- rlift (min_queue_size (q_proto q) streams (q_queues q) None) ;;
        match mqs with
-       | None => fail ENotImpl
+       | None => rfail ENotImpl
        | Some m =>
-           '(ss, qs) <- lift_res (parse_streams (q_proto q) streams (q_queues q) m) ;;
-           ret (mkQr (q_proto q) ss qs)
+           '(ss, qs) <- rlift (parse_streams (q_proto q) streams (q_queues q) m) ;;
+           rret (mkQr (q_proto q) ss qs)
        end
    end) ;;
-  relabel ERead pr_align ;;; ret q'.
+  r_align ;;; rret q'.
 
 (** * PointCloudReaderRaw *)
 Record raw_iter := mkRaw { ri_q : qr; ri_records : N; ri_read : N }.
 
-Definition raw_new (file_offset records : N) (proto : list dtype) : M pr raw_iter :=
-  q <- qr_new file_offset proto ;; ret (mkRaw q records 0).
+Definition raw_new (file_offset records : N) (proto : list dtype) : rprog raw_iter :=
+  q <- qr_new file_offset proto ;; rret (mkRaw q records 0).
 
 (** the refill loop [while available() < 1 { advance()? }]; every successful
     [advance] consumes at least four bytes of the logical stream, which bounds the fuel *)
-Fixpoint refill (fuel : nat) (q : qr) : M pr qr :=
+Fixpoint refill (fuel : nat) (q : qr) : rprog qr :=
   match fuel with
-  | O => fail EInternal        (* out of fuel: excluded by the termination theorem *)
-  | S f => if qr_available q <? 1 then q' <- qr_advance q ;; refill f q' else ret q
+  | O => rfail EInternal        (* out of fuel: excluded by the termination theorem *)
+  | S f => if qr_available q <? 1 then q' <- qr_advance q ;; refill f q' else rret q
   end.
 
-Definition refill_fuel (s : pr) : nat := S (S (N.to_nat (pr_log_size s / 4))).
+(** fuel for the refill loop from the logical size of the file *)
+Definition refill_fuel (log_size : N) : nat := S (S (N.to_nat (log_size / 4))).
 
 Inductive step_out (A : Type) := Done | Item (a : A).
 Arguments Done {A}.
 Arguments Item {A} a.
 
 (** [Iterator::next]: [Ok Done] = None, [Ok (Item p)] = Some(Ok(p)), [Err] = Some(Err). *)
-Definition raw_next (it : raw_iter) : M pr (raw_iter * step_out (list rvalue)) :=
-  if ri_records it <=? ri_read it then ret (it, Done) else
-  q <- (fun s => refill (refill_fuel s) (ri_q it) s) ;;
+Definition raw_next (log_size : N) (it : raw_iter) : rprog (raw_iter * step_out (list rvalue)) :=
+  if ri_records it <=? ri_read it then rret (it, Done) else
+  q <- refill (refill_fuel log_size) (ri_q it) ;;
   match pop_fronts (q_queues q) with
-  | Ok (vs, qs) => ret (mkRaw (mkQr (q_proto q) (q_streams q) qs) (ri_records it) (ri_read it + 1), Item vs)
-  | Err k => fail k
-  | Panic => panic
+  | Ok (vs, qs) => rret (mkRaw (mkQr (q_proto q) (q_streams q) qs) (ri_records it) (ri_read it + 1), Item vs)
+  | Err k => rfail k
+  | Panic => RPanic
   end.
 
 (** Drive the iterator to its end or first error. *)
-Fixpoint raw_collect (fuel : nat) (it : raw_iter) (acc : list (list rvalue)) : M pr (list (list rvalue)) :=
+Fixpoint raw_collect (fuel : nat) (log_size : N) (it : raw_iter) (acc : list (list rvalue)) : rprog (list (list rvalue)) :=
   match fuel with
-  | O => fail EInternal
+  | O => rfail EInternal
   | S f =>
-      '(it', o) <- raw_next it ;;
+      '(it', o) <- raw_next log_size it ;;
       match o with
-      | Done => ret acc
-      | Item p => raw_collect f it' (acc ++ [p])
+      | Done => rret acc
+      | Item p => raw_collect f log_size it' (acc ++ [p])
       end
   end.
